@@ -22,6 +22,13 @@ CLAIMED = {
     note='Trusted: clang front end, vf/irsym.py (its handling of fadd/fsub/fmul/fdiv/__divdc3/sqrt-of-declared-square/cabs comparisons), z3, oracle/vnaconv_rel.py transcribed from vnaconv(3); '
          'every divisor met is assumed non-zero (away from the singular set).',
     design='DESIGN.md section 4 / C04', cmd='python3-vt ./check C04'),
+ 'C19': dict(
+    technique='symbolic interpretation of the real LU / mldivide / mrdivide / minverse (clang-14 IR -> vf/irsym.py) with z3 deciding A X = B, X A = B, A X = I, det and the pivot rule on every feasible pivot path; numeric replay on the gcc-compiled kernel',
+    text='Exact algebraic proof per pivot path: for n = 1..2 (3 in thorough) with every matrix entry a free complex symbol, on EVERY feasible outcome of the pivot comparisons, '
+         'the real kernels return X with A X = B / X A = B / A X = I exactly, the returned determinant equals det A, row_index is a permutation and L U = P A; the pivot chosen is the one '
+         'scaled partial pivoting prescribes (|a_i0| / max_j |a_ij| maximal) - a deviation is replayed numerically on a badly row-scaled system before it is reported.',
+    note='Trusted: clang front end, vf/irsym.py, z3. Exact-field claims only: backward-error bounds for n up to 8 / 40x15 and the QR family are outside (not solver-decidable here).',
+    design='DESIGN.md section 4 / C19', cmd='python3-vt ./check C19'),
  'C05': dict(
     technique='bounded symbolic model checking of the real vnadata_convert dispatch: clang-14 IR -> ll2c -> CBMC 6.11, recording stubs for the 90 vnaconv kernels, name-derived oracle',
     text='Bounded proof with CBMC over the real vnadata_convert: for all 11 x 13 (from, to) type codes, shapes 2x2 / 3x3 / 1x2, ordinary and per-frequency z0, in-place and '
@@ -71,13 +78,13 @@ m = {
  'hooks': {'guard': 'LIBVNA_VERIF', 'enable': 'none needed: static functions are reached by #include of the real .c file from the harness TU; stubs are supplied at link level',
            'baseline_off_cmd': 'make -C /repo check', 'source_commits': [], 'add_only': True},
  'engines': [
-    {'name': 'll2c+cbmc', 'path': 'vf/ll2c.py', 'serves_properties': [p for p in sorted(CLAIMED) if p not in ('C13', 'C04')], 'kind_free_text': 'clang-14 -O0 IR -> C translator feeding CBMC 6.11 (bounded symbolic execution, SAT)'},
-    {'name': 'irsym+z3', 'path': 'vf/irsym.py', 'serves_properties': ['C04'], 'kind_free_text': 'LLVM-IR symbolic interpreter with exact rational-function doubles; z3 nonlinear real arithmetic decides the relation'},
+    {'name': 'll2c+cbmc', 'path': 'vf/ll2c.py', 'serves_properties': [p for p in sorted(CLAIMED) if p not in ('C13', 'C04', 'C19')], 'kind_free_text': 'clang-14 -O0 IR -> C translator feeding CBMC 6.11 (bounded symbolic execution, SAT)'},
+    {'name': 'irsym+z3', 'path': 'vf/irsym.py', 'serves_properties': ['C04', 'C19'], 'kind_free_text': 'LLVM-IR symbolic interpreter with exact rational-function doubles; z3 nonlinear real arithmetic decides the relation'},
     {'name': 'cbmc-native', 'path': 'vf/core.py', 'serves_properties': ['C13'], 'kind_free_text': 'CBMC 6.11 C front end directly on the real .c files (complex-free units)'},
  ],
  'checks': [
     {'property_id': pid, 'quick_cmd': '%s --tier quick' % c.get('cmd', './check %s' % pid), 'thorough_cmd': '%s --tier thorough' % c.get('cmd', './check %s' % pid),
-     'evidence_file': 'evidence/%s.json' % pid, 'replay_cmd_template': './check --replay {path}', 'engine': 'irsym+z3' if pid in ('C04',) else ('ll2c+cbmc' if pid not in ('C13',) else 'cbmc-native'),
+     'evidence_file': 'evidence/%s.json' % pid, 'replay_cmd_template': './check --replay {path}', 'engine': 'irsym+z3' if pid in ('C04', 'C19') else ('ll2c+cbmc' if pid not in ('C13',) else 'cbmc-native'),
      'level_claimed': {'category': 'proof', 'text': c['text'], 'design_ref': c['design']}, 'level_note': c['note'], 'technique': c['technique']}
     for pid, c in sorted(CLAIMED.items())],
  'notes': 'All checks regenerate their encoding from /repo\'s working tree on every run. Exit 0 = held within the stated bounds; exit 1 + VIOLATION line = '
